@@ -365,7 +365,9 @@ def checkStates (m : Mon) (o : Obs) : Option String :=
     match m.defs[k]?, o.st[k]? with
     | some d, some (c, l) =>
       let ex := expectedSt (m.get d.key) o.now
-      if ex ≠ (c, l) then
+      if c = "X" then
+        some s!"site=controller.views operation {k} {d.key}: the controller's operation_exists / is_operation_pending / is_operation_ready / is_operation_done views disagree with get_operation_state"
+      else if ex ≠ (c, l) then
         some s!"site=controller.state operation {k} {d.key}: reported {c}:{l} but the accepted history prescribes {ex.1}:{ex.2} at ledger {o.now}"
       else none
     | _, _ => none)
